@@ -150,3 +150,15 @@ def mutator(w):
     except Exception as e:
         return {"reproduced": True, "detail": "Router.%s raised %r for %s endpoint" % (which, e, "a registered" if x in cs else "an unregistered")}
     return {"reproduced": False, "detail": "real code agrees on this input"}
+
+
+@kind("router.accepts")
+def accepts(w):
+    from indi.device import Driver
+
+    class D(Driver):
+        name = w["name"]
+    d = D()
+    got = bool(d.accepts(w["device"]))
+    want = w["device"] is None or w["device"] == w["name"]
+    return {"reproduced": got != want, "detail": "Driver named %r accepts(%r) -> %r, statement says %r" % (w["name"], w["device"], got, want)}
